@@ -37,7 +37,36 @@ def shared(ob):
     return observe.digest({k: ob[k] for k in ("metadata", "sync", "global")})
 
 
-def check_selection(rec, text, full_ob, present, sel, label, container):
+def equal_to_unrestricted(rec, full_chart, chart, case, label, when):
+    """'each identical to the track an unrestricted parse produces': identical includes `==`, in both directions — the unrestricted
+    chart has been observed and queried by now (derived attributes read, a rate asked), the restricted one is compared once
+    untouched and once after its own observation"""
+    try:
+        for inst, inner in chart.instrument_tracks.items():
+            for diff, tr in inner.items():
+                other = full_chart.instrument_tracks.get(inst, {}).get(diff)
+                if other is None:
+                    continue
+                rec.ev()
+                rec.cls("selected_track_compared_with_==")
+                if not (tr == other and other == tr) or tr != other or other != tr:
+                    rec.violation("selected-track-unequal", f"track {inst.name}/{diff.name} parsed under selection {label} is not == the track of the "
+                                  f"unrestricted parse ({when}) although every public field agrees", case, "selected-track-unequal")
+                    return False
+        for name in ("metadata", "sync_track", "global_events_track"):
+            rec.ev()
+            a, b = getattr(chart, name), getattr(full_chart, name)
+            if not (a == b and b == a):
+                rec.violation("selection-changes-shared", f"{name} parsed under selection {label} is not == the unrestricted parse's ({when})", case,
+                              "selection-changes-shared-sections")
+                return False
+    except Exception as e:  # noqa
+        rec.violation("selected-track-unequal", f"comparing with == raised {harness.exc_str(e)}", case, "selected-track-unequal")
+        return False
+    return True
+
+
+def check_selection(rec, text, full_ob, present, sel, label, container, full_chart=None):
     want = None if sel is None else container(sel)
     case = {"text": text, "selection": None if sel is None else [list(p) for p in sel], "container": container.__name__ if sel is not None else None}
     out = harness.parse(text, harness.pairs(want) if want is not None else None) if want is None else \
@@ -47,9 +76,13 @@ def check_selection(rec, text, full_ob, present, sel, label, container):
         rec.violation("restricted-parse-rejected", f"selection {label} ({case['selection']}) => {harness.exc_str(out.exc)} although the "
                       "unrestricted parse succeeds", case, f"restricted-rejected:{type(out.exc).__name__}")
         return False
+    if full_chart is not None and not equal_to_unrestricted(rec, full_chart, out.chart, case, label, "restricted chart untouched"):
+        return False
     ob = harness.obs(out.chart)
     expect = set(present) if sel is None else {f"{i}/{d}" for i, d in sel} & set(present)
     ok = True
+    if full_chart is not None and not equal_to_unrestricted(rec, full_chart, out.chart, case, label, "both observed"):
+        return False
     if set(ob["tracks"]) != expect:
         rec.violation("selection", f"selection {label} {case['selection']} on a file with tracks {sorted(present)} returned "
                       f"{sorted(ob['tracks'])}, expected {sorted(expect)}", case, f"selection:{label}")
@@ -211,6 +244,7 @@ def run_shard(shard, rec, tier, seed):
             rec.diag(f"baseline rejected: {harness.exc_str(full.exc)}")
             continue
         full_ob = harness.obs(full.chart)
+        cur_full = full.chart
         if i % 2:
             # sections the library does not handle ([ExpertVocals], [ProDrums] ...), holding note-like lines, before / between / after
             # the instrument sections: reported and ignored — their content is nobody's track, selected or not
@@ -239,10 +273,16 @@ def run_shard(shard, rec, tier, seed):
                 continue
             rec.cls("unhandled_sections_among_the_instrument_sections")
             case = dict(case, text=text2)
+            cur_full = out2.chart
         present = sorted(case["truth"]["tracks"])
         ppairs = [tuple(k.split("/")) for k in present]
+        for pi, pd in ppairs[:2]:  # the unrestricted chart is a chart in use: a rate has been asked of it
+            try:
+                cur_full.notes_per_second(harness.Instrument[pi], harness.Difficulty[pd])
+            except ValueError:
+                pass
         for sel, label, container in selections(rng, ppairs):
-            check_selection(rec, case["text"], full_ob, present, sel, label, container)
+            check_selection(rec, case["text"], full_ob, present, sel, label, container, cur_full)
             if rec.full:
                 break
         for kind in ("valid", "empty", "garbage", "invalid_forced_first", "invalid_disorder"):
